@@ -24,6 +24,9 @@ def rd (mem : List Nat) (i : Nat) : M Nat :=
   | some v => .ok v
   | none => .error (.oobRead i)
 
+/-- the byte `b` as the `char` (signed on this platform) the C++ code reads -/
+def toChar (b : Nat) : Int := if b < 128 then (b : Int) else (b : Int) - 256
+
 abbrev rd8 := rd
 abbrev rd16 := rd
 abbrev rd32 := rd
@@ -36,6 +39,7 @@ abbrev rd32 := rd
 
 @[simp] theorem ok_bind {α β : Type} (a : α) (f : α → M β) : ((Except.ok a : M α) >>= f) = f a := rfl
 @[simp] theorem error_bind {α β : Type} (e : Fault) (f : α → M β) : ((Except.error e : M α) >>= f) = Except.error e := rfl
+@[simp] theorem throw_eq_error {α : Type} (e : Fault) : (throw e : M α) = Except.error e := rfl
 @[simp] theorem pure_eq_ok {α : Type} (a : α) : (pure a : M α) = Except.ok a := rfl
 
 instance {α : Type} [DecidableEq α] : DecidableEq (M α) := fun a b =>
